@@ -1067,6 +1067,151 @@ Proof.
     rew_loop Hloop4. cbv beta iota. sym'. reflexivity.
 Qed.
 
+(* ------------------------------------------------------------------ add_policy on a model with a priority column *)
+(* ---------------------------------------------------------------- list facts *)
+Lemma nth_error_app_len {A} (pre : list A) x t m : length pre = m -> nth_error (pre ++ x :: t) m = Some x.
+Proof. intros <-. rewrite nth_error_app2 by lia. rewrite Nat.sub_diag. reflexivity. Qed.
+
+Lemma nth_error_app_len_S {A} (pre : list A) x y t m : length pre = m -> nth_error (pre ++ x :: y :: t) (S m) = Some y.
+Proof. intros <-. rewrite nth_error_app2 by lia. replace (S (length pre) - length pre)%nat with 1%nat by lia. reflexivity. Qed.
+
+Lemma set_nth_app_len {A} (pre : list A) x t m v : length pre = m -> set_nth m v (pre ++ x :: t) = pre ++ v :: t.
+Proof. intros <-. induction pre as [|a pre IH]; simpl; [reflexivity|]. rewrite IH. reflexivity. Qed.
+
+Lemma set_nth_app_len_S {A} (pre : list A) x y t m v : length pre = m ->
+  set_nth (S m) v (pre ++ x :: y :: t) = pre ++ x :: v :: t.
+Proof. intros <-. induction pre as [|a pre IH]; simpl; [reflexivity|]. simpl in IH. rewrite IH. reflexivity. Qed.
+
+Lemma ltb_app_len {A} (pre : list A) x t m : length pre = m -> (m <? length (pre ++ x :: t))%nat = true.
+Proof. intros <-. apply Nat.ltb_lt. rewrite app_length. simpl. lia. Qed.
+
+Lemma ltb_app_len_S {A} (pre : list A) x y t m : length pre = m -> (S m <? length (pre ++ x :: y :: t))%nat = true.
+Proof. intros <-. apply Nat.ltb_lt. rewrite app_length. simpl. lia. Qed.
+
+Lemma of_nat_S_pred m : (Z.of_nat (S m) - 1)%Z = Z.of_nat m.
+Proof. lia. Qed.
+
+Lemma of_N_ltb a b : (Z.of_N a <? Z.of_N b)%Z = (a <? b).
+Proof.
+  destruct (N.ltb_spec a b) as [H|H]; [apply Z.ltb_lt | apply Z.ltb_ge]; lia.
+Qed.
+
+Section Exec.
+  Variable P : prog.
+  Variable E : penv.
+  Lemma exec_for_down n s i from body z : eval P E n s from = Ok (PI z) ->
+    exec P E (S n) s (SForDown i from body) =
+    for_each (fun k s' => block P E n (set_loc i (PI k) s') body) (down_from (Z.to_nat z)) s.
+  Proof.
+    intro H.
+    change (exec P E (S n) s (SForDown i from body)) with
+      (match eval P E n s from with
+       | Ok (PI z) => for_each (fun k s' => block P E n (set_loc i (PI k) s') body) (down_from (Z.to_nat z)) s
+       | Ok _ => OErr EType s
+       | Err c => OErr c s
+       end).
+    rewrite H. reflexivity.
+  Qed.
+End Exec.
+
+Definition mkP (r : rule) (k : N) (p : list rule) (i idx tmp : pv) : pst :=
+  {| pol := p; loc := [(3, PL r); (6, PI (Z.of_N k)); (4, i); (7, idx); (8, tmp)] |}.
+
+Definition BODY : list st :=
+  [STry [SAssign 7 (XInt (XIdx (XIdx XPol (XSub (XVar 4) (XI 1))) XPrioIndex))];
+   SIf (XCmp CGt (XVar 7) (XVar 6))
+     [SAssign 8 (XIdx XPol (XVar 4)); SPolSet (XVar 4) (XIdx XPol (XSub (XVar 4) (XI 1)));
+      SPolSet (XSub (XVar 4) (XI 1)) (XVar 8)] [SBreak]].
+
+Ltac psimp Hlen Hpi Hx Hd0 Hd1 :=
+  rewrite ?of_nat_S_pred, ?norm_idx_of_nat;
+  rewrite ?(ltb_app_len _ _ _ _ Hlen), ?(ltb_app_len_S _ _ _ _ _ Hlen), ?(nth_error_app_len _ _ _ _ Hlen),
+          ?(nth_error_app_len_S _ _ _ _ _ Hlen); cbv beta iota;
+  rewrite ?norm_idx_of_nat, ?Hpi, ?Hx; cbv beta iota; rewrite ?Hd0, ?Hd1; cbv beta iota.
+
+(* one round of the swap loop: the new rule r stands at position S m, its left neighbour is x *)
+Lemma bubble_body tk (pi : nat) n r k pre x kx post m i0 idx0 tmp0 :
+  length pre = m -> nth_error x pi = Some kx -> digit_atom kx = true ->
+  block policy_gen (mkE true (Z.of_nat pi) tk) (20 + n)
+    (set_loc 4 (PI (Z.of_nat (S m))) (mkP r k (pre ++ x :: r :: post) i0 idx0 tmp0)) BODY =
+  if k <? kx
+  then ONext (mkP r k (pre ++ r :: x :: post) (PI (Z.of_nat (S m))) (PI (Z.of_N kx)) (PL r))
+  else OBrk (mkP r k (pre ++ x :: r :: post) (PI (Z.of_nat (S m))) (PI (Z.of_N kx)) tmp0).
+Proof.
+  intros Hlen Hx Hd. unfold BODY, mkP. cbn [Nat.add].
+  assert (Hpi : (pi <? length x)%nat = true).
+  { apply Nat.ltb_lt. apply nth_error_Some. rewrite Hx. discriminate. }
+  unfold digit_atom in Hd. apply andb_true_iff in Hd. destruct Hd as [Hd0 Hd1].
+  step. step. step. psimp Hlen Hpi Hx Hd0 Hd1. psimp Hlen Hpi Hx Hd0 Hd1.
+  step. step. step. rewrite of_N_ltb. destruct (k <? kx); cbv beta iota.
+  - step. psimp Hlen Hpi Hx Hd0 Hd1. step. psimp Hlen Hpi Hx Hd0 Hd1.
+    rewrite (set_nth_app_len_S _ _ _ _ _ _ Hlen). step. psimp Hlen Hpi Hx Hd0 Hd1.
+    rewrite (set_nth_app_len _ _ _ _ _ Hlen). step. step. reflexivity.
+  - step. reflexivity.
+Qed.
+
+
+Definition digit_field (pi : nat) (x : rule) : bool :=
+  match nth_error x pi with Some kx => digit_atom kx | None => false end.
+
+Lemma bubble_loop tk (pi : nat) n r k : forall pre post i0 idx0 tmp0,
+  forallb (digit_field pi) pre = true ->
+  exists i' idx' tmp',
+    for_each (fun kz s' => block policy_gen (mkE true (Z.of_nat pi) tk) (20 + n) (set_loc 4 (PI kz) s') BODY)
+      (down_from (length pre)) (mkP r k (pre ++ r :: post) i0 idx0 tmp0) =
+    ONext (mkP r k (rev (bubble pi k r (rev pre)) ++ post) i' idx' tmp').
+Proof.
+  induction pre as [|x pre' IH] using rev_ind; intros post i0 idx0 tmp0 Hd.
+  - simpl. eexists _, _, _. reflexivity.
+  - rewrite forallb_app in Hd. apply andb_true_iff in Hd. destruct Hd as [Hd' Hx]. simpl in Hx.
+    rewrite andb_true_r in Hx. unfold digit_field in Hx.
+    destruct (nth_error x pi) as [kx|] eqn:Ex; [|discriminate].
+    rewrite app_length. simpl length. rewrite Nat.add_1_r. cbn [down_from for_each].
+    rewrite <- app_assoc. simpl app.
+    pose proof (bubble_body tk pi n r k pre' x kx post (length pre') i0 idx0 tmp0 eq_refl Ex Hx) as Hb.
+    match type of Hb with ?lhs = _ => match goal with |- context [match ?b with ONext _ => _ | ORet _ _ => _ | OBrk _ => _ | OErr _ _ => _ end] => change b with lhs end end.
+    rewrite Hb. clear Hb.
+    rewrite rev_app_distr. simpl rev. simpl bubble. unfold field. rewrite Ex.
+    destruct (k <? kx).
+    + destruct (IH (x :: post) (PI (Z.of_nat (S (length pre')))) (PI (Z.of_N kx)) (PL r) Hd') as (i' & idx' & tmp' & H).
+      exists i', idx', tmp'. cbv beta iota. eapply eq_trans; [exact H|]. simpl rev. rewrite <- app_assoc. reflexivity.
+    + eexists _, _, _. simpl rev. rewrite rev_involutive, <- !app_assoc. reflexivity.
+Qed.
+
+Lemma of_nat_leb0 k : (0 <=? Z.of_nat k)%Z = true.
+Proof. apply Z.leb_le. lia. Qed.
+
+Lemma tie_add_policy_prio tk (pi : nat) l r :
+  forallb (digit_field pi) l = true ->
+  match nth_error r pi with Some k => digit_atom k = true | None => True end ->
+  run policy_gen (mkE true (Z.of_nat pi) tk) FUEL m_add_policy l [PL r] =
+  (Ok (PB (snd (add_policy (Some pi) l r))), fst (add_policy (Some pi) l r)).
+Proof.
+  intros Hl Hr. match goal with |- _ = ?rhs => set (R := rhs) end. start.
+  step. step. step.
+  destruct (mem rule_eqb r l) eqn:Hm; cbv beta iota.
+  { sym'. subst R. unfold add_policy, has_policy. rewrite Hm. reflexivity. }
+  step. step. step. step. rewrite of_nat_leb0. cbv beta iota.
+  step. step. step. rewrite norm_idx_of_nat.
+  destruct (nth_error r pi) as [k|] eqn:Er.
+  2: { (* the new rule has no priority field: IndexError, swallowed; the rule stays appended *)
+       assert (Hlt : (pi <? length r)%nat = false) by (apply Nat.ltb_ge; apply nth_error_None; exact Er).
+       rewrite Hlt. cbv beta iota. sym'. subst R. unfold add_policy, has_policy, insert_by_priority, field.
+       rewrite Hm, Er. reflexivity. }
+  assert (Hlt : (pi <? length r)%nat = true) by (apply Nat.ltb_lt; apply nth_error_Some; rewrite Er; discriminate).
+  rewrite Hlt, Er. cbv beta iota.
+  unfold digit_atom in Hr. apply andb_true_iff in Hr. destruct Hr as [Hr0 Hr1]. rewrite Hr0, Hr1. cbv beta iota.
+  step. step.
+  match goal with |- context [(Z.of_nat (length ?x) - 1)%Z] =>
+    replace (Z.of_nat (length x) - 1)%Z with (Z.of_nat (length l)) by (rewrite app_length; simpl length; lia) end.
+  match goal with |- context [exec ?P ?E (S ?n) ?s (SForDown ?i ?f ?b)] =>
+    rewrite (exec_for_down P E n s i f b (Z.of_nat (length l)) eq_refl) end. rewrite Nat2Z.id.
+  destruct (bubble_loop tk pi 30 r k l [] (PI (Z.of_nat (length l))) PUnbound PUnbound Hl) as (i' & idx' & tmp' & HL).
+  change (20 + 30)%nat with 50%nat in HL. unfold BODY, mkP in HL. rew_loop HL. clear HL. cbv beta iota.
+  rewrite app_nil_r. sym'. subst R. unfold add_policy, has_policy, insert_by_priority, field.
+  rewrite Hm, Er. reflexivity.
+Qed.
+
 (* ------------------------------------------------------------------ C06, stated of the regenerated source *)
 Notation src := (run policy_gen).
 
@@ -1170,6 +1315,18 @@ Theorem src_filtered_read sp pi tk l fi vs :
   src (mkE sp pi tk) FUEL m_get_filtered_policy l [PI (Z.of_nat fi); PL vs] =
   (match get_filtered l fi vs with Ok out => Ok (PLL out) | Err c => Err c end, l).
 Proof. apply tie_get_filtered_policy. Qed.
+
+(* C07: a single add on a loaded explicit-priority model inserts the rule behind the last stored rule whose priority is
+   not larger - exactly Policy.v's insert_by_priority, of which PriorityProofs.v proves order and stability *)
+Theorem src_add_inserts_by_priority tk (pi : nat) l r :
+  forallb (digit_field pi) l = true ->
+  match nth_error r pi with Some k => digit_atom k = true | None => True end ->
+  src (mkE true (Z.of_nat pi) tk) FUEL m_add_policy l [PL r] =
+  if has_policy l r then (Ok (PB false), l) else (Ok (PB true), insert_by_priority pi l r).
+Proof.
+  intros Hl Hr. rewrite (tie_add_policy_prio tk pi l r Hl Hr). unfold add_policy.
+  destruct (has_policy l r); reflexivity.
+Qed.
 
 Example src_example :
   src (mkE true (-1)%Z None) FUEL m_add_policies [[1000; 1001; 1002]] [PLL [[1003; 1001; 1002]; [1000; 1004; 1002]]] =
